@@ -91,7 +91,7 @@ def run_contracts(contracts, reg, timeout_ms=20000, workers=None):
 def merge_sites(results):
     """one verdict per obligation identity (all paths): refuted > unknown > proved"""
     merged = {}
-    order = {"refuted": 3, "vacuous": 2, "unknown": 2, "proved": 1}
+    order = {"refuted": 4, "candidate": 3, "vacuous": 2, "unknown": 2, "proved": 1}
     for r in results:
         for ob in r["obligations"]:
             k = ob["ident"]
@@ -226,6 +226,22 @@ class Report:
                 by_backend[o["backend"]] = by_backend.get(o["backend"], 0) + 1
             elif o["status"] == "refuted" and o["kind"] == "drift":
                 self.undecided.append(f"contract drift (assumed external contract no longer keyed to this text): {o['ident'][:200]}")
+            elif o["status"] == "candidate":
+                rp = None
+                if replayer is not None:
+                    try:
+                        rp = replayer(o)
+                    except Exception as ex:
+                        rp = {"reproduced": False, "error": f"{type(ex).__name__}: {ex}"}
+                if rp and rp.get("reproduced"):
+                    payload = {"property": self.prop, "obligation": o["ident"], "function": o["fn"], "kind": o["kind"],
+                               "site": o["site"], "backend": o["backend"], "model": o["model"],
+                               "detail": o["detail"], "replay": rp}
+                    path = write_replay(self.prop, o["ident"], payload)
+                    self.violations.append((o["ident"], str(path), ""))
+                else:
+                    self.undecided.append(f"obligation has a finite-domain counter-model candidate that the replay did "
+                                          f"not reproduce: {o['ident'][:160]}")
             elif o["status"] == "refuted":
                 wclass = o.get("exc", "")
                 kf = is_known(self.prop, o["ident"], wclass, self.known)
@@ -268,7 +284,8 @@ class Report:
         for c in self.crashes:
             print(f"CHECKER-CRASH {c}")
         nob = len(obs)
-        if nob == 0 or nfun < expected_min_functions:
+        n_oor = sum(1 for r in self.results if r["status"] == "out_of_reach")
+        if (nob == 0 or nfun < expected_min_functions) and nfun + n_oor < expected_min_functions:
             self.crashes.append(f"zero obligations or too few functions bound ({nfun} < {expected_min_functions})")
             print(f"CHECKER-CRASH {self.crashes[-1]}")
         level = self.level
@@ -307,10 +324,10 @@ class Report:
         print(f"[{self.prop}] functions={nfun} obligations={nob} discharged={discharged} "
               f"violations={len(self.violations)} known={len(self.known_hits)} undecided={len(self.undecided)} "
               f"wall={ev['wall_s']}s")
-        if self.crashes:
-            return 3
         if self.violations:
             return 1
+        if self.crashes:
+            return 3
         if self.undecided:
             return 2
         return 0
